@@ -225,3 +225,105 @@ func exhaustivePrograms() []*prog {
 	}
 	return out
 }
+
+// reachMatrix enumerates {the way a native function is reached} × {what the native function
+// does} × {where it is called and who recovers}. Function 1 is always the native function N;
+// the other functions are the context.
+//
+//	what N does: panics with an int / a string / an error / a value of a custom error type,
+//	  does nothing, prints, Stop, Fatal, calls back a Scriggo function (h.Call and h.CallN) that
+//	  panics, raises a run-time error, recovers (nil), recovers its own panic, does nothing,
+//	  calls Stop, calls Fatal;
+//	contexts: called / deferred / deferred while the program is unwinding, with no recover,
+//	  recover in a deferred closure of the caller, defer recover(), a deferred closure that
+//	  re-panics, a deferred closure that panics again, one and two calls deep.
+func reachMatrix() []*prog {
+	type what struct {
+		body  []instr   // of N
+		kind  int       // of the value N panics with
+		extra [][]instr // functions N refers to (indices from 2)
+	}
+	var whats []what
+	for k := 0; k < nKind; k++ {
+		whats = append(whats, what{body: []instr{{opPanic, 1}}, kind: k})
+	}
+	whats = append(whats,
+		what{body: []instr{}},
+		what{body: []instr{{opPrint, 1}}},
+		what{body: []instr{{opStop, 1}}},
+		what{body: []instr{{opFatal, 1}}},
+	)
+	for _, cb := range [][][]instr{
+		{{{opPanic, 1}}},
+		{{{opPanic, errBase + 2}}},
+		{{{opRecover, 0}}},
+		{{{opDefer, 3}, {opPanic, 1}}, {{opRecover, 0}}},
+		{{}},
+		{{{opStop, 2}}},
+		{{{opFatal, 1}}},
+	} {
+		whats = append(whats, what{body: []instr{{opCall, 2}}, extra: cb})
+	}
+	// contexts: main and further functions; N stands for function 1, X+k for the k-th function
+	// after N's own extra functions
+	const N, X = -1, -100
+	contexts := [][][]instr{
+		{{{opCall, N}}},
+		{{{opPrint, 7}, {opCall, N}, {opPrint, 8}}},
+		{{{opDefer, X}, {opCall, N}, {opPrint, 8}}, {{opRecover, 0}}},
+		{{{opDeferRec, 0}, {opCall, N}}},
+		{{{opDefer, N}, {opPrint, 8}}},
+		{{{opDefer, N}, {opPanic, 2}}},
+		{{{opDefer, X}, {opDefer, N}, {opPanic, 2}}, {{opRecover, 0}, {opRecover, 0}}},
+		{{{opDefer, X}, {opCall, N}}, {{opRepanic, 0}}},
+		{{{opCall, X}, {opPrint, 8}}, {{opDefer, X - 1}, {opCall, N}, {opPrint, 9}}, {{opRecover, 0}}},
+		{{{opDefer, X - 1}, {opCall, X}}, {{opDefer, X - 2}, {opCall, N}}, {{opRecover, 0}}, {{opPanic, 3}}},
+		{{{opDefer, X}, {opCall, N}, {opCall, N}}, {{opRecover, 0}, {opDefer, N}}},
+	}
+	var out []*prog
+	for _, w := range whats {
+		for _, ctx := range contexts {
+			nx := 2 + len(w.extra)
+			fix := func(body []instr) []instr {
+				nb := make([]instr, len(body))
+				for i, in := range body {
+					if in.Op == opCall || in.Op == opDefer {
+						switch {
+						case in.Arg == N:
+							in.Arg = 1
+						case in.Arg <= X:
+							in.Arg = nx + (X - in.Arg)
+						}
+					}
+					nb[i] = in
+				}
+				return nb
+			}
+			funcs := [][]instr{fix(ctx[0]), w.body}
+			funcs = append(funcs, w.extra...)
+			for _, f := range ctx[1:] {
+				funcs = append(funcs, fix(f))
+			}
+			// Scriggo function indices must refer forward: the callbacks of N (2…) come before the
+			// context functions, which only refer to N and to later context functions
+			for reach := 0; reach < nReach; reach++ {
+				p := &prog{Funcs: funcs, Style: make([]int, len(funcs))}
+				p.Style[1] = styleNative
+				for i := 2; i < len(funcs); i++ {
+					p.Style[i] = []int{styleTop, styleLit, styleVar}[(i+reach)%3]
+				}
+				p.Reach = make([]int, len(funcs))
+				p.Reach[1] = reach
+				p.Kind = []int{0, w.kind}
+				if p.envNative(1) && (reach == reachField || reach == reachSlice) {
+					continue // known finding env-native-in-composite
+				}
+				if !p.nativeShape(1) {
+					panic("reach matrix: function 1 cannot be written as a native function")
+				}
+				out = append(out, p)
+			}
+		}
+	}
+	return out
+}
